@@ -641,17 +641,29 @@ func bvGenV2Shape(r *Rng) *bvShape {
 	// a few deliberately wrong requests (guards of validate / validateBlindingArgs)
 	if r.Chance(6) {
 		k := r.Intn(nPar)
-		switch r.Intn(3) {
+		owns := func(i uint32) bool {
+			for _, x := range sh.Parties[k].Own {
+				if x == i {
+					return true
+				}
+			}
+			return false
+		}
+		switch r.Intn(4) {
 		case 0:
 			sh.Parties[k].Outs = append(sh.Parties[k].Outs, uint32(len(sh.Outs)+r.Intn(2)))
 		case 1:
 			sh.Parties[k].Outs = append(sh.Parties[k].Outs, uint32(len(sh.Outs)-1)) // the fee output
-		case 2:
+		case 2: // an output whose blinder index is not one of this party's inputs
 			for j, o := range sh.Outs {
-				if o.Blind && owner[o.BlinderIdx] != k && nPar > 1 {
+				if o.Blind && !owns(o.BlinderIdx) {
 					sh.Parties[k].Outs = append(sh.Parties[k].Outs, uint32(j))
 					break
 				}
+			}
+		case 3: // the same output twice in one call (accepted by the library; outside the property)
+			if len(sh.Parties[k].Outs) > 0 {
+				sh.Parties[k].Outs = append(sh.Parties[k].Outs, sh.Parties[k].Outs[0])
 			}
 		}
 	}
